@@ -10,7 +10,7 @@
 import FcModel.Lexsort
 import Mathlib.Data.List.Sort
 import Mathlib.Data.List.Perm.Basic
-namespace Fc
+namespace Fc.C02
 variable {α : Type}
 
 theorem filterMap_getElem?_range (l : List α) :
@@ -94,4 +94,4 @@ theorem isArgsort_revTies : IsArgsort argsortRevTies where
   perm keys := (argsort_of_pairs keys _ (List.reverse_perm _)).1
   sorted keys := (argsort_of_pairs keys _ (List.reverse_perm _)).2
 
-end Fc
+end Fc.C02
